@@ -61,6 +61,22 @@ impl<T> SyncSender<T> {
     pub closed spec fn queue(&self) -> mpsc::SyncSender<T> { self.sender }
 }
 //@ endregion
+//@ open src/sources/channel.rs / impl Clone for Sender<T>
+//@ item src/sources/channel.rs / impl Clone for Sender<T> / fn clone props=C04 ret=r
+//@ rw R23 1 <<self.ping.clone()>> => <<ping_clone(&self.ping)>>
+//@ spec
+        ensures
+            // C04: a cloned sender feeds the same queue and wakes the same source
+            queue_of_tx(&r.queue()) == queue_of_tx(&self.queue()), r.wake_fd() == self.wake_fd(),
+//@ enditem
+//@ close
+//@ open src/sources/channel.rs / impl Clone for SyncSender<T>
+//@ item src/sources/channel.rs / impl Clone for SyncSender<T> / fn clone props=C04 ret=r
+//@ spec
+        ensures
+            queue_of_stx(&r.queue()) == queue_of_stx(&self.queue()), r.wake_fd() == self.wake_fd(),
+//@ enditem
+//@ close
 //@ open src/sources/channel.rs / impl Sender<T>
 //@ item src/sources/channel.rs / impl Sender<T> / fn send props=C04 ret=r
 //@ closure <<|()| self.ping.ping()>>
@@ -120,6 +136,21 @@ impl<T> SyncSender<T> {
 //@ item src/sources/channel.rs / struct ChannelError props=C04
 //@ enditem
 
+//@ open src/sources/channel.rs / impl Channel<T>
+//@ item src/sources/channel.rs / impl Channel<T> / fn recv props=C04 ret=r
+//@ enditem
+//@ item src/sources/channel.rs / impl Channel<T> / fn try_recv props=C04 ret=r
+//@ spec
+        requires may_recv(self.rx()),
+        ensures
+            // the manual proxy hands on exactly what the channel's own queue end answered
+            match r {
+                Ok(v) => w_received(self.rx(), v),
+                Err(mpsc::TryRecvError::Empty) => w_empty(self.rx()),
+                Err(mpsc::TryRecvError::Disconnected) => w_disconnected(self.rx()),
+            },
+//@ enditem
+//@ close
 impl<T> Channel<T> {
 //@ slice src/sources/channel.rs / impl EventSource for Channel<T> / fn process_events :: closure 1 props=C04,C02 name=Channel::process_events::drain_closure
 //@ sig
